@@ -375,8 +375,9 @@ func importerCodePerName(c *core.Ctx) {
 	ip := p.Pkg("importer")
 	codeT := core.MustType(p.Pkg("compiler"), "Code")
 	n := 0
+	bodies := importBodies(p)
 	for _, fn := range repoFns(p, "importer") {
-		if fn.Name() != "Import" || fn.Signature.Recv() == nil {
+		if !bodies[fn] {
 			continue
 		}
 		var nameP *ssa.Parameter
